@@ -32,10 +32,14 @@ def instances(quick, prop="C05"):
           ("n3ro02", pol_cfg(3, [0, 2], [2, 3], "Adj0", [0, 7], True, RO_INV))]
     if quick:
         return q1 if prop == "C05" else []
-    return q1 + [("n3ro", pol_cfg(3, [0, 1, 2], [2, 3], "Adj1", [0, 7], True, RO_INV)),
-                 ("n3big", pol_cfg(3, [0, 1, 3], [5, 8], "Adj2", [0, 7], False, ALL_INV)),
-                 ("n3ro3", pol_cfg(3, [0, 1, 2], [3], "Adj0", [0, 7], True, RO_INV)),
-                 ("n3w", pol_cfg(3, [1, 2, 4], [4, 6], "Adj3", [0, 7], True, RO_INV))]
+    # measured on this machine (16 cores, other jobs running): n3ro 2.0 M states / 2.5 min, n3big 1.6 M / 1 min, n3ro3 0.9 M / 1 min,
+    # n3w 9.2 M / 11 min - the largest one is run by the check of C05 only
+    mid = q1 + [("n3big", pol_cfg(3, [0, 1, 3], [5, 8], "Adj2", [0, 7], False, ALL_INV)),
+                ("n3ro3", pol_cfg(3, [0, 1, 2], [3], "Adj0", [0, 7], True, RO_INV))]
+    if prop != "C05":
+        return mid
+    return mid + [("n3ro", pol_cfg(3, [0, 1, 2], [2, 3], "Adj1", [0, 7], True, RO_INV)),
+                  ("n3w", pol_cfg(3, [1, 2, 4], [4, 6], "Adj3", [0, 7], True, RO_INV))]
 
 
 def run(prop, tier, replay=None, collect_only=False):
